@@ -66,6 +66,8 @@ func main() {
 		results = runC09(*tier, &sum)
 	case "C20":
 		results = runC20(*tier, &sum)
+	case "C07":
+		results = runC07(*tier, &sum)
 	default:
 		sum.Error = "no schedule scenarios for " + *prop
 	}
@@ -391,17 +393,69 @@ func runC10(tier string, sum *props.SchedSummary) []vs.Result {
 		},
 	}
 	resZ := vs.Explore(scZ, bound, budget)
-	out := []vs.Result{res, resB, res2, res3, resF, resZ}
+	// two registrations of different (direction, CID) pairs at the same time, next to a decoder: both are
+	// in the registry afterwards (a copy-on-write table that clones a snapshot taken before the lock loses one)
+	scY := c07RegistrationScenario()
+	resY := vs.Explore(scY, bound, budget)
+	out := []vs.Result{res, resB, res2, res3, resF, resZ, resY}
 	// every interleaving (no preemption bound) with state-key pruning, for the result oracles
 	allBudget := 30000
 	if tier == "thorough" {
 		allBudget = 2000000
 	}
-	for _, s := range []vs.Scenario{scA, scB, sc2, sc3, scF, scZ} {
+	for _, s := range []vs.Scenario{scA, scB, sc2, sc3, scF, scZ, scY} {
 		s.Name += " [all interleavings]"
 		out = append(out, vs.ExploreAll(s, allBudget))
 	}
 	return out
+}
+
+// c07RegistrationScenario: two registrations of different (direction, CID) pairs at the same time, next to
+// a decoder; both registrations are in the registry afterwards (C07: "all histories of proprietary
+// registrations" - a history of two overlapping calls is one; C10: the calls are independent).
+func c07RegistrationScenario() vs.Scenario {
+	return vs.Scenario{
+		Name:  "registry: register (up,82,2) || register (down,83,3) || decode uplink (82 aa bb 02)",
+		Setup: func() { lorawan.VerifRegistryReset() },
+		Threads: func() []vs.Thread {
+			return []vs.Thread{
+				{Name: "Y1-register-up-82", Body: func() { vs.Observe(fmt.Sprint(lorawan.RegisterProprietaryMACCommand(true, 0x82, 2))) }},
+				{Name: "Y2-register-down-83", Body: func() { vs.Observe(fmt.Sprint(lorawan.RegisterProprietaryMACCommand(false, 0x83, 3))) }},
+				{Name: "Y3-decode-uplink", Body: func() { vs.Observe(decodeFOpts(true, []byte{0x82, 0xaa, 0xbb, 0x02})) }},
+			}
+		},
+		Check: func(x *vs.Execution) []vs.Problem {
+			var ps []vs.Problem
+			if a, b := x.Obs["Y1-register-up-82"], x.Obs["Y2-register-down-83"]; len(a) != 1 || a[0] != "<nil>" || len(b) != 1 || b[0] != "<nil>" {
+				ps = append(ps, vs.Problem{Key: "registry/register-result", What: fmt.Sprintf("registrations returned %q %q", a, b)})
+			}
+			if d := strings.Join(x.Obs["Y3-decode-uplink"], "|"); d != "82 aa bb 02" && d != "82{aabb} 02" {
+				ps = append(ps, vs.Problem{Key: "registry/decode-not-linearizable", What: fmt.Sprintf("decoding 82 aa bb 02 concurrently with the registrations gave %q", d)})
+			}
+			_, s1, e1 := lorawan.GetMACPayloadAndSize(true, 0x82)
+			_, s2, e2 := lorawan.GetMACPayloadAndSize(false, 0x83)
+			if e1 != nil || e2 != nil || s1 != 2 || s2 != 3 {
+				ps = append(ps, vs.Problem{Key: "registry/registration-lost", What: fmt.Sprintf("after both registrations returned nil the registry has (up,82): size %d err %v, (down,83): size %d err %v", s1, e1, s2, e2)})
+			}
+			return ps
+		},
+	}
+}
+
+func runC07(tier string, sum *props.SchedSummary) []vs.Result {
+	bound, budget := 3, 200000
+	if tier == "thorough" {
+		bound, budget = 5, 1000000
+	}
+	sc := c07RegistrationScenario()
+	res := vs.Explore(sc, bound, budget)
+	all := sc
+	all.Name += " [all interleavings]"
+	allBudget := 30000
+	if tier == "thorough" {
+		allBudget = 2000000
+	}
+	return []vs.Result{res, vs.ExploreAll(all, allBudget)}
 }
 
 // ---------------------------------------------------------------- C16
